@@ -960,6 +960,7 @@ struct Digit {
             index += SizeT(number_length - precision);
 
             roundStringNumber(stream, index, power_increased, round_up);
+            storage = stream.Storage();
 
             if (is_positive_exp) {
                 const SizeT diff =
@@ -1063,6 +1064,7 @@ struct Digit {
                 if (fraction_length > precision) {
                     index += SizeT(fraction_length - (precision + SizeT{1}));
                     roundStringNumber(stream, index, power_increased, (round_up | (diff != 0)));
+                    storage = stream.Storage();
 
                     Char_T       *number = (storage + index);
                     const Char_T *last   = stream.Last();
@@ -1140,7 +1142,7 @@ struct Digit {
     }
 
     template <typename Stream_T>
-    static void roundStringNumber(Stream_T &stream, SizeT &index, bool &power_increased, bool round_up) noexcept {
+    static void roundStringNumber(Stream_T &stream, SizeT &index, bool &power_increased, bool round_up) {
         using Char_T = typename Stream_T::CharType;
 
         const Char_T *last   = stream.Last();
@@ -1161,7 +1163,10 @@ struct Digit {
                 ++number;
             }
 
-            if ((number > last) || (*number == DigitUtils::DigitChar::Nine)) {
+            if (number > last) {
+                power_increased = true;
+                stream += DigitUtils::DigitChar::One; // index == stream.Length()
+            } else if (*number == DigitUtils::DigitChar::Nine) {
                 power_increased         = true;
                 stream.Storage()[index] = DigitUtils::DigitChar::One;
             } else {
